@@ -39,6 +39,8 @@ def run(ctx):
     b_encode_total(ctx, enc)
     e_aged_references(ctx)
     f_state_owns_configs(ctx)
+    c_shared_structure(ctx, enc)
+    e_cleanup_keeps_needed(ctx)
 
 
 def _enc_branches(enc):
@@ -445,3 +447,80 @@ def f_state_owns_configs(ctx):
               "a state that is passed in keeps its own flow configurations (only a NEW state is built from the runtime's)" if not stores else
               "`%s` replaces the flow configurations of a passed-in state: restored on another LLMRails instance (other worker, restart) the saved contexts refer to generated names that "
               "do not exist in the runtime's own expansion, matching fails and the bot goes silent" % first_line(stores[0], 60), line=(stores[0].lineno if stores else pe.lineno))
+
+
+def c_shared_structure(ctx, enc):
+    """`restoring yields a state that reacts exactly as the original`: the object graph of a state has sharing (a list handed to a child flow IS the parent's list), cycles
+    (a child holding `$self` of its parent, a captured event of the parent) and dicts with non-string keys.  The encoder must (1) register an object in `refs` BEFORE it
+    descends into it, (2) register mutable lists like the other containers, (3) not rely on JSON object keys for non-string dict keys."""
+    # (1) registration order
+    regs = [a for a in ast.walk(enc) if isinstance(a, ast.Assign) and isinstance(a.targets[0], ast.Subscript) and src(a.targets[0].value) == "refs"]
+    rec = [c for c in ast.walk(enc) if isinstance(c, ast.Call) and src(c.func) == enc.name]
+    ok1 = bool(regs) and bool(rec) and min(r.lineno for r in regs) < min(c.lineno for c in rec if not _in_list_branch(c, enc))
+    ctx.check("C11.c.cycle-safe", SER, enc.name, "object registered in refs before its members are encoded", ok1,
+              "an object is entered into `refs` before the encoder descends into it, so a reference cycle becomes a ref marker" if ok1 else
+              "`refs[obj_id] = value` runs only AFTER the members were encoded: for a cyclic state (a child flow that holds `$self` of its parent, `match FlowStarted(...) as $ev` of the parent) the ref test never fires "
+              "and state_to_json raises RecursionError - the state cannot be saved, and LLMRails.generate() serialises the Colang 2 state on every call", line=(regs[0].lineno if regs else enc.lineno))
+    # (2) lists
+    lb = [i for i in ast.walk(enc) if isinstance(i, ast.If) and re.sub(r"\s", "", src(i.test)) == "isinstance(obj,list)"]
+    inline = bool(lb) and any(isinstance(r, ast.Return) and isinstance(r.value, ast.ListComp) for r in lb[0].body)
+    ctx.check("C11.c.list-identity", SER, enc.name, "lists take part in reference tracking", not inline,
+              "lists are registered in `refs` like dicts/sets/tuples" if not inline else
+              "a list is emitted inline and never entered into `refs`: a list shared by two flows (`start collector $heard`, the child appends) comes back as two independent lists, the child's updates "
+              "are invisible to the parent after a restore", line=(lb[0].lineno if lb else enc.lineno))
+    # (3) dict keys
+    db = None
+    for i in ast.walk(enc):
+        if isinstance(i, ast.If) and re.sub(r"\s", "", src(i.test)) == "isinstance(obj,dict)":
+            db = i
+    keys_ok = True
+    if db is not None:
+        comps = [c for st in db.body for c in ast.walk(st) if isinstance(c, ast.DictComp)]
+        keys_ok = not any(isinstance(c.key, ast.Name) for c in comps) or "items" in "".join(src(st) for st in db.body if isinstance(st, ast.Assign) and "__type" in src(st) and "\"items\"" in src(st))
+        keys_ok = keys_ok and not any(isinstance(c.key, ast.Name) and not any("isinstance(k, str)" in src(x) or "all(" in src(x) for x in ast.walk(db)) for c in comps)
+    ctx.check("C11.b.dict-keys", SER, enc.name, "dict keys survive the round trip", keys_ok,
+              "non-string dict keys are encoded explicitly" if keys_ok else
+              "dict keys are used as JSON object keys as they are: json.dumps turns `{1: \"one\"}` into `{\"1\": ...}` and nothing converts them back, so `$names[2]` works live and fails after a restore", line=(db.lineno if db else enc.lineno))
+
+
+def _in_list_branch(call, enc):
+    p_ = getattr(call, "_parent", None)
+    while p_ is not None and p_ is not enc:
+        if isinstance(p_, ast.If) and re.sub(r"\s", "", src(p_.test)) == "isinstance(obj,list)" and any(call is x for st in p_.body for x in ast.walk(st)):
+            return True
+        p_ = getattr(p_, "_parent", None)
+    return False
+
+
+def e_cleanup_keeps_needed(ctx):
+    """Ageing must not change later behaviour: what _clean_up_state discards must not be needed again.  (1) A finished instance that is still the `parent_uid` of a kept
+    instance is looked up when that child finishes/restarts; (2) an action that has not FINISHED is needed to interpret its later events."""
+    t = ctx.tree.ast(SM)
+    cu = find_function(t, "_clean_up_state")
+    if cu is None:
+        raise AnalysisError("_clean_up_state not found", anchor=SM + "::_clean_up_state")
+    txt = src(cu)
+    protects_parents = any(isinstance(i, ast.If) and "parent_uid" in src(i.test) and re.search(r"parent_uid\s+in\s+\w+", src(i.test)) and
+                           any(isinstance(c, ast.Call) and isinstance(c.func, ast.Attribute) and c.func.attr in ("discard", "remove") and isinstance(c.func.value, ast.Name) for c in ast.walk(i)) for i in ast.walk(cu))
+    unguarded = []
+    for fn in functions(t):
+        for sub in [x for x in ast.walk(fn) if isinstance(x, ast.Subscript) and src(x.value) == "state.flow_states" and src(x.slice).endswith(".parent_uid")]:
+            g = False
+            p_ = getattr(sub, "_parent", None)
+            while p_ is not None and p_ is not fn:
+                if isinstance(p_, (ast.If, ast.BoolOp, ast.IfExp)) and re.search(r"parent_uid\s+in\s+state\.flow_states", src(p_.test) if hasattr(p_, "test") else src(p_)):
+                    g = True
+                p_ = getattr(p_, "_parent", None)
+            if not g:
+                unguarded.append((fn.name, sub.lineno))
+    ok = protects_parents or not unguarded
+    ctx.check("C11.e.cleanup-keeps-parents", SM, "_clean_up_state", "parents of kept instances", ok,
+              "an instance that is still the parent of a kept instance is not discarded" if protects_parents else
+              ("every lookup of a parent instance tolerates its absence" if ok else
+               "a finished instance is discarded although a kept instance still names it as parent_uid, and %d lookups `state.flow_states[<x>.parent_uid]` are unguarded (e.g. %s): after idle time the shared activated "
+               "flow of a finished activator raises KeyError when it finishes and never restarts" % (len(unguarded), unguarded[:3])), line=cu.lineno)
+    keeps_unfinished = "ActionStatus.FINISHED" in txt or "is_done_action" in txt
+    ctx.check("C11.e.cleanup-keeps-actions", SM, "_clean_up_state", "unfinished actions", keeps_unfinished,
+              "actions that have not finished are kept when state.actions is rebuilt" if keeps_unfinished else
+              "state.actions is rebuilt from the action_uids of the surviving flows only: an action whose flow ended while it was still stopping is forgotten after 5 s, and its Finished event is then "
+              "not recognised by a flow waiting for it", line=cu.lineno)
